@@ -50,6 +50,7 @@ type c09Sched struct {
 	closedCallbacks int32
 	code    *py.Code
 	holdCode *py.Code
+	faultCode *py.Code
 	dir     string
 }
 
@@ -150,6 +151,19 @@ func (s *c09Sched) doOp(w *c09Worker, op string) (res string) {
 		_, err = s.ctx.ModuleInit(&py.ModuleImpl{Info: py.ModuleInfo{Name: fmt.Sprintf("m%d", w.id)}, Code: s.code})
 	case "resolve":
 		_, err = s.ctx.ResolveAndCompile(filepath.Join(s.dir, "prog.py"), py.CompileOpts{})
+	case "resolve-fault":
+		// injected fault: sys.path is not a list, so the path lookup inside ResolveAndCompile panics in Go
+		// (recovered by the deferred function above; what matters is that the context stays closable)
+		sys := s.ctx.Store().MustGetModule("sys")
+		old := sys.Globals["path"]
+		sys.Globals["path"] = py.Tuple{py.String(s.dir)}
+		defer func() { sys.Globals["path"] = old }()
+		_, err = s.ctx.ResolveAndCompile("prog.py", py.CompileOpts{UseSysPaths: true})
+	case "modinit-fault":
+		_, err = s.ctx.ModuleInit(&py.ModuleImpl{Info: py.ModuleInfo{Name: fmt.Sprintf("bad%d", w.id)}, CodeSrc: "x = = 1\n"})
+	case "run-fault":
+		g := py.NewStringDict()
+		_, err = s.ctx.RunCode(s.faultCode, g, g, nil)
 	case "close", "close2":
 		err = s.ctx.Close()
 	case "waitdone":
@@ -173,6 +187,10 @@ func init() {
 				c09Yield(m.Context, "exec.inside1")
 				c09Yield(m.Context, "exec.inside2")
 			}
+			return py.None, nil
+		}, 0, ""), py.MustNewMethod("boom", func(self py.Object) (py.Object, error) {
+			var m map[string]int
+			m["injected fault"] = 1 // a Go panic inside a Go function called from Python
 			return py.None, nil
 		}, 0, "")},
 		Globals: py.StringDict{},
@@ -203,6 +221,7 @@ type c09Result struct {
 // runSchedule executes the configuration under the given choice prefix (beyond it: first enabled worker)
 func c09RunSchedule(cfg [][]string, prefix []int, dir string, code, holdCode *py.Code) c09Result {
 	s := &c09Sched{byGid: map[int64]*c09Worker{}, events: make(chan c09Event, 64), code: code, holdCode: holdCode, dir: dir}
+	s.faultCode, _ = py.Compile("import verifhold\nverifhold.boom()\n", "<c09fault>", py.ExecMode, 0, true)
 	// build the context before the hook controls anything
 	s.ctx = py.NewContext(py.ContextOpts{SysPaths: []string{dir}})
 	if err := py.Import(s.ctx, "verifclosecb", "verifhold"); err != nil {
@@ -280,7 +299,7 @@ func c09RunSchedule(cfg [][]string, prefix []int, dir string, code, holdCode *py
 				res.violation, res.detail = "done-early", "a Done waiter woke before the callbacks ran / executions finished"
 			}
 		case "op-end":
-			if strings.HasPrefix(ev.err, "panic:") {
+			if strings.HasPrefix(ev.err, "panic:") && !strings.Contains(ev.op, "-fault") {
 				res.violation, res.detail = "panic:"+panicClass(strings.TrimPrefix(ev.err, "panic:")), fmt.Sprintf("worker %d op %s panicked: %s", ev.worker, ev.op, ev.err)
 			}
 			if strings.HasPrefix(ev.op, "close") && ev.err == "" {
@@ -537,6 +556,7 @@ func TestC09(t *testing.T) {
 	defer func() { stdlib.VerifYield = nil }()
 	dir, code, hold := c09Setup(r)
 	ops := []string{"run", "run-hold", "modinit", "resolve", "close", "waitdone"}
+	opsRandom := append(append([]string(nil), ops...), "resolve-fault", "modinit-fault", "run-fault")
 	var cfgs [][][]string
 	for _, a := range ops {
 		for _, b := range ops {
@@ -551,7 +571,10 @@ func TestC09(t *testing.T) {
 	}
 	// scripts of two operations
 	cfgs = append(cfgs, [][]string{{"close", "run"}, {"run-hold"}}, [][]string{{"run", "close"}, {"close2", "run"}}, [][]string{{"close"}, {"run", "run"}}, [][]string{{"run-hold", "close"}, {"modinit", "waitdone"}},
-		[][]string{{"close", "close2"}, {"resolve"}}, [][]string{{"close"}, {"close2"}}, [][]string{{"close", "modinit"}, {"waitdone"}})
+		[][]string{{"close", "close2"}, {"resolve"}}, [][]string{{"close"}, {"close2"}}, [][]string{{"close", "modinit"}, {"waitdone"}},
+		// fault sequences: an execution that fails or panics between admission and release must not leak the busy count
+		[][]string{{"resolve-fault", "close"}, {"waitdone"}}, [][]string{{"modinit-fault", "close"}, {"run"}}, [][]string{{"run-fault", "close"}, {"waitdone"}},
+		[][]string{{"resolve-fault"}, {"close"}}, [][]string{{"run-fault"}, {"close"}}, [][]string{{"modinit-fault"}, {"close"}})
 	if r.Thorough() {
 		for _, a := range ops {
 			for _, b := range ops {
@@ -593,7 +616,7 @@ func TestC09(t *testing.T) {
 			n := g.Int(1, 2)
 			var script []string
 			for k := 0; k < n; k++ {
-				op := ops[g.N(len(ops))]
+				op := opsRandom[g.N(len(opsRandom))]
 				if op == "close" {
 					hasClose = true
 				}
